@@ -299,11 +299,11 @@ int main(int argc, char **argv){
     vf::Args A(argc, argv);
     g_tier = A.get("--tier", "quick");
     double dl = A.getd("--deadline", 0); if (dl > 0) vf::g_deadline = vf::now() + dl;
-    if (A.has("--replay")) return run_replay("C05", A.get("--replay"), HIST_ALL, explore_cfg);
+    if (A.has("--replay")) return run_replay("C05", A.get("--replay"), HIST_ALL, explore_cfg, 360.0);
     auto U = units();
     if (A.has("--list")){ size_t n = 0; for(auto &u : U){ printf("%s %zu\n", u.name.c_str(), u.cfgs.size()); n += u.cfgs.size(); } printf("total %zu\n", n); return 0; }
     std::string bound = std::string("C05 lattice tier=") + g_tier + ": 5 families, local orders -1..5, wavelet orders 1,3, dims <= " + (g_tier == "thorough" ? "3" : "2 (+ a 3-D slice)") +
         ", 2 outputs, {canonical, linear transform}; histories load(member) | load(generic) + " + (g_tier == "thorough" ? "2" : "1") + " refinement round(s) + reload(member); 4 interior probes per state";
-    run_all("C05", U, (int) A.geti("--workers", 8), bound, HIST_ALL, explore_cfg, 20.0);
+    run_all("C05", U, (int) A.geti("--workers", 8), bound, HIST_ALL, explore_cfg, 90.0); // CPU seconds per configuration (the slowest one, the 59049-point Fourier grid, needs ~19)
     return 0;
 }
